@@ -67,8 +67,14 @@ def _ref_child(srcdir, requests, table, mutations, modules=()):
     sys.path.insert(1, srcdir)
     for m in modules:
         importlib.import_module(m)
-    for (modn, var, value) in mutations:
-        setattr(importlib.import_module(modn), var, value)
+    for mut in mutations:
+        modn, var, value = mut[:3]
+        if len(mut) > 3 and mut[3]:
+            from .proc import assign_inplace
+
+            assign_inplace(getattr(importlib.import_module(modn), var), value)
+        else:
+            setattr(importlib.import_module(modn), var, value)
     out = []
     for rq in requests:
         modn, fn = rq["entry"].split(":")
